@@ -21,6 +21,7 @@ import (
 	"fmt"
 	"strings"
 	"sync"
+	"sync/atomic"
 	"testing"
 	"time"
 )
@@ -135,7 +136,7 @@ type c36DelayCase struct {
 }
 
 func TestVerifC36(t *testing.T) {
-	rep := vfNewReport("C36", "A: generated delay tables (0-6 entries incl. empty, zero and negative durations), release rates -2..9, idle timeout 0 or 1h, sequences of 5-60 Signal/Release/Reset/Level/GetDelay ops, non-trivial when the level became positive and a Signal or Release was clamped; B: Delay at every table level x context {none, already cancelled, 10ms deadline, 5s deadline, cancelled 10 ms into the delay without / with a far (60 s) deadline}; C: real idle timers (100-160 ms) with re-arming touches, reads before the deadline and the observed reset; C2: signal^k (k > release rate), real 60-120 ms idle reset observed, then one Release, reads, one Signal")
+	rep := vfNewReport("C36", "A: generated delay tables (0-6 entries incl. empty, zero and negative durations), release rates -2..9, idle timeout 0 or 1h, sequences of 5-60 Signal/Release/Reset/Level/GetDelay ops, non-trivial when the level became positive and a Signal or Release was clamped; B: Delay at every table level x context {none, already cancelled, 10ms deadline, 5s deadline, cancelled 10 ms into the delay without / with a far (60 s) deadline}; C: real idle timers (100-160 ms) with re-arming touches, reads before the deadline and the observed reset; F: throttle at its maximum, 2 goroutines signalling against 4 goroutines reading Level/GetDelay/Delay; C2: signal^k (k > release rate), real 60-120 ms idle reset observed, then one Release, reads, one Signal")
 	defer rep.Write()
 	r := vfNewRng(36)
 	var allOps, allImpl [][]string
@@ -431,6 +432,80 @@ func TestVerifC36(t *testing.T) {
 		}(i)
 	}
 	wg.Wait()
+
+	// ---- F: concurrent Signals at the ceiling against readers --------------------------------
+	// The throttle is driven to its maximum; two goroutines keep signalling while four others read
+	// Level / GetDelay / Delay(already cancelled context). Every level ever observed must lie in
+	// [0, len(delays)-1] and no call may panic (an out-of-range level makes GetDelay/Delay index
+	// past the table). A negative probe: nothing here depends on timing, so it is load-safe.
+	{
+		tableF := []time.Duration{0, time.Millisecond, 2 * time.Millisecond, 3 * time.Millisecond}
+		th := New(tableF, 1, 0)
+		for i := 0; i < len(tableF)+2; i++ {
+			th.Signal()
+		}
+		maxL := len(tableF) - 1
+		nSig := vfScale(400000, 20000000) // 100k per signaller was too few to hit the window of seeded/C36c reliably
+		var stop atomic.Bool
+		var outOfRange, panics, reads atomic.Int64
+		var firstBad atomic.Value
+		safe := func(what string, f func()) {
+			defer func() {
+				if p := recover(); p != nil {
+					panics.Add(1)
+					firstBad.CompareAndSwap(nil, fmt.Sprintf("%s panicked: %v", what, p))
+				}
+			}()
+			f()
+		}
+		cctx, ccancel := context.WithCancel(context.Background())
+		ccancel()
+		var sg, rg sync.WaitGroup
+		for g := 0; g < 2; g++ {
+			sg.Add(1)
+			go func() {
+				defer sg.Done()
+				for i := 0; i < nSig && outOfRange.Load() == 0 && panics.Load() == 0; i++ { // stop early once a violation has been seen
+					th.Signal()
+				}
+			}()
+		}
+		for g := 0; g < 4; g++ {
+			rg.Add(1)
+			go func(g int) {
+				defer rg.Done()
+				for i := 0; !stop.Load(); i++ {
+					safe("Level", func() {
+						if lv := th.Level(); lv < 0 || lv > maxL {
+							outOfRange.Add(1)
+							firstBad.CompareAndSwap(nil, fmt.Sprintf("Level() returned %d with a table of %d entries", lv, len(tableF)))
+						}
+					})
+					safe("GetDelay", func() { _ = th.GetDelay() })
+					if i%64 == g {
+						safe("Delay", func() { _ = th.Delay(cctx) }) // either result is fine; it must not panic
+					}
+					reads.Add(1)
+				}
+			}(g)
+		}
+		sg.Wait()
+		stop.Store(true)
+		rg.Wait()
+		replayF := map[string]interface{}{"delays": c36TableTok(tableF), "scenario": "level driven to the maximum; 2 goroutines x Signal in a loop; 4 goroutines x Level/GetDelay/Delay(cancelled ctx)", "signals": 2 * nSig, "reads": reads.Load()}
+		if outOfRange.Load() > 0 {
+			rep.Fail("level-out-of-range", fmt.Sprintf("concurrent Signals at the ceiling: %d reads saw a level outside [0,%d] (%v)", outOfRange.Load(), maxL, firstBad.Load()), replayF)
+		}
+		if panics.Load() > 0 {
+			rep.Fail("throttler-panicked", fmt.Sprintf("concurrent Signals at the ceiling: %d reader calls panicked (%v)", panics.Load(), firstBad.Load()), replayF)
+		}
+		if lv := th.Level(); lv != maxL {
+			rep.Fail("signal-step-wrong", fmt.Sprintf("after %d Signals at the ceiling the level is %d, want %d", 2*nSig, lv, maxL), replayF)
+		}
+		rep.Case("F:concurrent-signals-at-ceiling", true)
+		rep.CountN("F:signals", 2*nSig)
+		rep.CountN("F:reads", int(reads.Load()))
+	}
 
 	// ---- C2: Release after the idle timeout has already zeroed a high level ----------------
 	// signal^k with k > releaseRate, then nothing until the idle reset is observed, then a single
